@@ -111,14 +111,9 @@ func genHistory(c *core.Ctx, codec string, nOps, maxSize, hostileMax int, badRat
 
 // ---- running and reporting ----------------------------------------------------
 
-// outcomeOf runs a history (child process for the real codecs, in-process for
-// the magic codec whose streams are our own code) and flattens what happened
-// into failures.
+// outcomeOf runs a history in a child process (also the test codec: a broken
+// wrapper may loop forever) and flattens what happened into failures.
 func outcomeOf(h *history) ([]failure, *execResult) {
-	if h.Codec == "magic" {
-		res := execHistory(h, false, nil, nil)
-		return res.Fails, res
-	}
 	cr := runChild(h, 5*time.Minute)
 	if cr.Res != nil {
 		return cr.Res.Fails, cr.Res
@@ -140,6 +135,30 @@ func outcomeOf(h *history) ([]failure, *execResult) {
 		class = "child-died"
 	}
 	return []failure{{Class: class, What: what + cr.Detail + " (the child process running the history was lost)", Op: at}}, nil
+}
+
+type done struct {
+	fs  []failure
+	res *execResult
+}
+
+// runAll runs the histories in child processes, six at a time.
+func runAll(hs []*history) []done {
+	results := make([]done, len(hs))
+	var wg sync.WaitGroup
+	sem := make(chan struct{}, 6)
+	for i := range hs {
+		wg.Add(1)
+		sem <- struct{}{}
+		go func(i int) {
+			defer wg.Done()
+			defer func() { <-sem }()
+			fs, res := outcomeOf(hs[i])
+			results[i] = done{fs, res}
+		}(i)
+	}
+	wg.Wait()
+	return results
 }
 
 func hasClass(fs []failure, class string) *failure {
@@ -238,7 +257,11 @@ func report(c *core.Ctx, h *history, fs []failure) {
 			continue
 		}
 		reported[f.Class] = true
-		min, mf := shrink(h, f, 40)
+		budget := 40
+		if f.Class == "hang" || f.Class == "unbounded-allocation" || strings.HasPrefix(f.Class, "alloc-declared-size") || f.Class == "child-died" {
+			budget = 10 // every attempt costs a child that has to die
+		}
+		min, mf := shrink(h, f, budget)
 		c.Violation(mf.Class, fmt.Sprintf("%s [history of %d calls on the shared %s codec value, failing call #%d]", mf.What, len(min.Ops), min.Codec, mf.Op), min)
 	}
 }
@@ -311,24 +334,7 @@ func runC20(c *core.Ctx) {
 		hs = append(hs, h)
 	}
 
-	type done struct {
-		fs  []failure
-		res *execResult
-	}
-	results := make([]done, len(hs))
-	var wg sync.WaitGroup
-	sem := make(chan struct{}, 6)
-	for i := range hs {
-		wg.Add(1)
-		sem <- struct{}{}
-		go func(i int) {
-			defer wg.Done()
-			defer func() { <-sem }()
-			fs, res := outcomeOf(hs[i])
-			results[i] = done{fs, res}
-		}(i)
-	}
-	wg.Wait()
+	results := runAll(hs)
 	var maxAlloc uint64
 	errs, accepted, declared := 0, 0, 0
 	for i, h := range hs {
